@@ -3,11 +3,15 @@
 // blocks are executed SEQUENTIALLY in the scheduled order through the crate's own functions (each
 // block runs under the lock that makes it atomic, so running them one after the other is the same
 // execution):  put = register_intent | commit_blob | IntentGuard::commit ;  get = index lookup |
-// blob read ;  remove / orphan clean-up = one block.  Steps that the schedule places inside a put's
-// apply block (after its index update, before its unlink) run from the delete callback.
+// blob read ;  remove = lookup + apply_remove_op ;  orphan clean-up = one block.
+// Blocks that the schedule places INSIDE another thread's apply (after its index update, before its
+// unlink) run from that apply's delete callback, i.e. exactly at that point of the real execution.
+// Before a nested block runs, the locks it needs are probed with try_lock: if the real code still
+// holds one of them there, the schedule is not realisable on the real code and the replay passes
+// (the solver-side model disagrees with the code -> the caller reports INCONCLUSIVE, never a violation).
 use crate::index::IntentMeta;
 use crate::*;
-use std::cell::RefCell;
+use std::cell::{Cell, RefCell};
 use std::collections::BTreeMap;
 use std::num::NonZeroU64;
 
@@ -18,6 +22,148 @@ fn content(id: i64) -> Vec<u8> {
 #[cfg(test)]
 fn keyname(id: i64) -> String {
     format!("key{id}")
+}
+
+#[cfg(test)]
+#[derive(Clone, Debug, PartialEq)]
+enum Atom {
+    Reg(usize),
+    Blob(usize),
+    Apply(usize),
+    Lookup(usize),
+    Open(usize),
+    Remove(usize),
+    Orphan(usize),
+}
+
+#[cfg(test)]
+struct Ctx<'a> {
+    cas: &'a Cas<String>,
+    v: serde_json::Value,
+    atoms: Vec<Atom>,
+    done: RefCell<Vec<bool>>,
+    unlink_pos: BTreeMap<usize, usize>,
+    staged: RefCell<BTreeMap<usize, tempfile::NamedTempFile>>,
+    guards: RefCell<BTreeMap<usize, crate::index::IntentGuard<'a, String>>>,
+    looked_up: RefCell<BTreeMap<usize, Option<IndexStateItem>>>,
+    failures: RefCell<Vec<String>>,
+    unrealisable: Cell<bool>,
+    depth: Cell<usize>,
+}
+
+#[cfg(test)]
+impl<'a> Ctx<'a> {
+    fn tkey(&self, t: usize) -> String {
+        keyname(self.v[format!("t{t}_key")].as_i64().unwrap_or(0))
+    }
+    fn thash(&self, t: usize) -> i64 {
+        self.v[format!("t{t}_hash")].as_i64().unwrap_or(0)
+    }
+    fn intents_free(&self) -> bool {
+        self.cas.index.pending_intents.try_lock().is_some()
+    }
+    fn state_free_for_write(&self) -> bool {
+        self.cas.index.state.try_write().is_some()
+    }
+    fn state_free_for_read(&self) -> bool {
+        self.cas.index.state.try_read().is_some()
+    }
+    /// run the nested blocks scheduled inside thread t's apply (positions i+1 .. its unlink)
+    fn run_inner(&self, i: usize, t: usize) {
+        let end = self.unlink_pos.get(&t).copied().unwrap_or(i + 1).max(i + 1).min(self.atoms.len());
+        for j in i + 1..end {
+            if !self.done.borrow()[j] {
+                self.run(j);
+            }
+        }
+    }
+    fn run(&self, i: usize) {
+        if self.done.borrow()[i] || self.unrealisable.get() {
+            return;
+        }
+        self.done.borrow_mut()[i] = true;
+        let nested = self.depth.get() > 0;
+        let cas = self.cas;
+        match self.atoms[i].clone() {
+            Atom::Reg(t) => {
+                if nested && !self.intents_free() {
+                    self.unrealisable.set(true);
+                    return;
+                }
+                let c = content(self.thash(t));
+                let mut f = tempfile::NamedTempFile::new_in(cas.paths.staging_root_path()).unwrap();
+                std::io::Write::write_all(&mut f, &c).unwrap();
+                self.staged.borrow_mut().insert(t, f);
+                let g = cas.index.register_intent(self.tkey(t), IntentMeta { blob_hash: calculate_blob_hash(&c), blob_size: c.len() as u64 }).unwrap();
+                self.guards.borrow_mut().insert(t, g);
+            }
+            Atom::Blob(t) => {
+                let c = content(self.thash(t));
+                let p = self.staged.borrow()[&t].path().to_path_buf();
+                cas.cas_manager.commit_blob(&p, &calculate_blob_hash(&c)).unwrap();
+            }
+            Atom::Apply(t) => {
+                if nested && !(self.intents_free() && self.state_free_for_write()) {
+                    self.unrealisable.set(true);
+                    return;
+                }
+                let ran = Cell::new(false);
+                let delete_fn = |hs: &[BlobHash]| -> Result<(), crate::cas_manager::CasManagerError> {
+                    ran.set(true);
+                    self.depth.set(self.depth.get() + 1);
+                    self.run_inner(i, t);
+                    self.depth.set(self.depth.get() - 1);
+                    cas.cas_manager.delete_blobs(hs)
+                };
+                let g = self.guards.borrow_mut().remove(&t);
+                if let Some(g) = g {
+                    let _ = g.commit(&delete_fn);
+                }
+                let _ = ran;
+            }
+            Atom::Lookup(t) => {
+                if nested && !self.state_free_for_read() {
+                    self.unrealisable.set(true);
+                    return;
+                }
+                let it = cas.index.read_state().get_item(&self.tkey(t));
+                self.looked_up.borrow_mut().insert(t, it);
+            }
+            Atom::Open(t) => {
+                if let Some(Some(item)) = self.looked_up.borrow().get(&t).cloned() {
+                    if let Err(e) = cas.cas_manager.read_blob(&item.blob_hash) {
+                        self.failures.borrow_mut().push(format!("T{t} get({}): key was present at its lookup but the read failed: {e}", self.tkey(t)));
+                    }
+                }
+            }
+            Atom::Remove(t) => {
+                if nested && !(self.intents_free() && self.state_free_for_write()) {
+                    self.unrealisable.set(true);
+                    return;
+                }
+                let key = self.tkey(t);
+                if cas.index.read_state().contains_key(&key) {
+                    let delete_fn = |hs: &[BlobHash]| -> Result<(), crate::cas_manager::CasManagerError> {
+                        self.depth.set(self.depth.get() + 1);
+                        self.run_inner(i, t);
+                        self.depth.set(self.depth.get() - 1);
+                        cas.cas_manager.delete_blobs(hs).map(|_| ())
+                    };
+                    let _ = cas.index.apply_remove_op(vec![key], &delete_fn);
+                }
+            }
+            Atom::Orphan(t) => {
+                if nested && !(self.intents_free() && self.state_free_for_read()) {
+                    self.unrealisable.set(true);
+                    return;
+                }
+                let h = calculate_blob_hash(&content(self.thash(t)));
+                if let Ok(stats) = crate::orphan::scan_orphans(cas.as_arc(), cas.as_arc().clone(), false) {
+                    let _ = stats.delete_orphan(&h);
+                }
+            }
+        }
+    }
 }
 
 #[cfg(test)]
@@ -55,20 +201,10 @@ fn replay_schedule() {
             }
         }
     }
-    let tkey = |t: usize| keyname(v[format!("t{t}_key")].as_i64().unwrap_or(0));
-    let thash = |t: usize| v[format!("t{t}_hash")].as_i64().unwrap_or(0);
-
-    // per-thread native state
-    let mut staged: BTreeMap<usize, tempfile::NamedTempFile> = BTreeMap::new();
-    let mut guards: BTreeMap<usize, crate::index::IntentGuard<'_, String>> = BTreeMap::new();
-    let looked_up: RefCell<BTreeMap<usize, Option<IndexStateItem>>> = RefCell::new(BTreeMap::new());
-    let failures: RefCell<Vec<String>> = RefCell::new(Vec::new());
 
     // translate the solver trace into native atoms (first marker of each block)
-    #[derive(Clone, Debug, PartialEq)]
-    enum Atom { Reg(usize), Blob(usize), Apply(usize), Lookup(usize), Open(usize), Whole(usize) }
     let mut atoms: Vec<Atom> = Vec::new();
-    let mut unlink_pos: BTreeMap<usize, usize> = BTreeMap::new(); // thread -> index in atoms where its apply unlinks
+    let mut unlink_pos: BTreeMap<usize, usize> = BTreeMap::new(); // thread -> index in atoms where its apply unlinks / ends
     let mut applying: BTreeMap<usize, bool> = BTreeMap::new();
     for s in &steps {
         let mut it = s.split(':');
@@ -82,84 +218,24 @@ fn replay_schedule() {
             ("put", ["unlink", _, "cas"]) | ("put", ["done"]) => { unlink_pos.entry(t).or_insert(atoms.len()); }
             ("get", ["acq", "state-read"]) => atoms.push(Atom::Lookup(t)),
             ("get", ["read", _, "cas"]) | ("get", ["open", _, "cas"]) => atoms.push(Atom::Open(t)),
-            ("remove", ["acq", "state-write"]) => atoms.push(Atom::Whole(t)),
-            ("delete_orphan", ["acq", "pending_intents"]) => atoms.push(Atom::Whole(t)),
+            ("remove", ["acq", "state-write"]) => { if !applying.get(&t).copied().unwrap_or(false) { applying.insert(t, true); atoms.push(Atom::Remove(t)); } }
+            ("remove", ["unlink", _, "cas"]) | ("remove", ["done"]) => { unlink_pos.entry(t).or_insert(atoms.len()); }
+            ("delete_orphan", ["acq", "pending_intents"]) => atoms.push(Atom::Orphan(t)),
             _ => {}
         }
     }
-    // run a reader/one-block atom
-    let run_simple = |a: &Atom| {
-        match a {
-            Atom::Lookup(t) => {
-                let it = cas.index.read_state().get_item(&tkey(*t));
-                looked_up.borrow_mut().insert(*t, it);
-            }
-            Atom::Open(t) => {
-                if let Some(Some(item)) = looked_up.borrow().get(t).cloned() {
-                    if let Err(e) = cas.cas_manager.read_blob(&item.blob_hash) {
-                        failures.borrow_mut().push(format!("T{t} get({}): key was present at its lookup but the read failed: {e}", tkey(*t)));
-                    }
-                }
-            }
-            Atom::Whole(t) => {
-                if kinds[*t] == "remove" {
-                    let _ = cas.remove(&tkey(*t));
-                } else {
-                    let h = calculate_blob_hash(&content(thash(*t)));
-                    if let Ok(stats) = crate::orphan::scan_orphans(cas.as_arc(), cas.as_arc().clone(), false) {
-                        let _ = stats.delete_orphan(&h);
-                    }
-                }
-            }
-            _ => {}
-        }
-    };
-    let mut i = 0;
-    while i < atoms.len() {
-        match atoms[i].clone() {
-            Atom::Reg(t) => {
-                let c = content(thash(t));
-                let mut f = tempfile::NamedTempFile::new_in(cas.paths.staging_root_path()).unwrap();
-                std::io::Write::write_all(&mut f, &c).unwrap();
-                staged.insert(t, f);
-                let g = cas.index.register_intent(tkey(t), IntentMeta { blob_hash: calculate_blob_hash(&c), blob_size: c.len() as u64 }).unwrap();
-                guards.insert(t, g);
-            }
-            Atom::Blob(t) => {
-                let c = content(thash(t));
-                cas.cas_manager.commit_blob(staged[&t].path(), &calculate_blob_hash(&c)).unwrap();
-            }
-            Atom::Apply(t) => {
-                // atoms scheduled inside this apply block (before its unlink) run from the callback
-                let end = unlink_pos.get(&t).copied().unwrap_or(i + 1).max(i + 1);
-                let inner: Vec<Atom> = atoms[i + 1..end.min(atoms.len())].iter()
-                    .filter(|a| matches!(a, Atom::Lookup(_) | Atom::Open(_))).cloned().collect();
-                let ran_inner = RefCell::new(false);
-                let delete_fn = |hs: &[BlobHash]| -> Result<(), crate::cas_manager::CasManagerError> {
-                    *ran_inner.borrow_mut() = true;
-                    for a in &inner {
-                        run_simple(a);
-                    }
-                    cas.cas_manager.delete_blobs(hs)
-                };
-                let g = guards.remove(&t).unwrap();
-                let _ = g.commit(&delete_fn);
-                if !*ran_inner.borrow() {
-                    for a in &inner {
-                        run_simple(a);
-                    }
-                }
-                // skip the inner atoms in the main sequence
-                let skip: Vec<usize> = (i + 1..end.min(atoms.len())).filter(|j| matches!(atoms[*j], Atom::Lookup(_) | Atom::Open(_))).collect();
-                for j in skip.into_iter().rev() {
-                    atoms.remove(j);
-                }
-            }
-            a => run_simple(&a),
-        }
-        i += 1;
+    let n = atoms.len();
+    let ctx = Ctx { cas: &cas, v: v.clone(), atoms, done: RefCell::new(vec![false; n]), unlink_pos, staged: RefCell::new(BTreeMap::new()),
+                    guards: RefCell::new(BTreeMap::new()), looked_up: RefCell::new(BTreeMap::new()), failures: RefCell::new(Vec::new()),
+                    unrealisable: Cell::new(false), depth: Cell::new(0) };
+    for i in 0..n {
+        ctx.run(i);
     }
-    drop(guards);
+    ctx.guards.borrow_mut().clear();
+    if ctx.unrealisable.get() {
+        println!("schedule is not realisable on the real code: a nested block needs a lock the real code still holds at that point");
+        return;
+    }
     // the instant invariant, at the end of the schedule: every key in the index has its blob
     let st = cas.read_index_state();
     for (k, item) in st.iter() {
@@ -167,6 +243,6 @@ fn replay_schedule() {
         assert!(p.exists(), "key {k:?} is visible in the index but its blob {} does not exist (dangling reference)", item.blob_hash);
     }
     drop(st);
-    let f = failures.borrow();
+    let f = ctx.failures.borrow();
     assert!(f.is_empty(), "{}", f.join("; "));
 }
